@@ -235,10 +235,24 @@ def _walk_pds(text, strict, res, base, bit, nbytes_per_char=1):
         tag = text[p:p + 4]
         ln_text = text[p + 4:p + 7]
         if len(tag) < 4 or len(ln_text) < 3:
-            raise _Reject(f'DE{bit}: PDS header cut short at {p}')
+            if strict:
+                raise _Reject(f'DE{bit}: PDS header cut short at {p}')
+            # the statement frames bitmap elements; what a reader makes of a ragged carrier tail is not defined
+            dontcare.add('PDS*')
+            break
         if strict and not plain_number(tag):
             raise _Reject(f'DE{bit}: PDS tag {tag!r} is not four digits')
-        ln = _numeral(ln_text, strict, f'DE{bit} PDS{tag}')
+        if strict:
+            ln = _numeral(ln_text, True, f'DE{bit} PDS{tag}')
+        else:
+            try:
+                ln = int(ln_text)
+            except ValueError:
+                dontcare.add('PDS*')
+                break
+            if ln < 0:
+                # values would overlap: this is a mis-frame whatever else the carrier holds
+                raise _Reject(f'DE{bit} PDS{tag}: negative declared length {ln}')
         val = text[p + 7:p + 7 + ln]
         res.frames.append(('pds_tag', bit, base + p, base + p + 4))
         res.frames.append(('pds_len', bit, base + p + 4, base + p + 7))
@@ -431,7 +445,7 @@ def compare(values, got, dontcare):
     if '*' in dontcare:
         return None
     for k in set(values) | set(got):
-        if k in dontcare or (k.startswith('TAG') and 'TAG*' in dontcare):
+        if k in dontcare or (k.startswith('TAG') and 'TAG*' in dontcare) or (k.startswith('PDS') and 'PDS*' in dontcare):
             continue
         if k not in got:
             return f'key {k} missing (expected {values[k]!r})'
@@ -440,6 +454,9 @@ def compare(values, got, dontcare):
         a, b = values[k], got[k]
         if type(a) is not type(b) and not (isinstance(a, (bytes, bytearray)) and isinstance(b, (bytes, bytearray))):
             return f'{k}: type {type(b).__name__}, expected {type(a).__name__} ({b!r} vs {a!r})'
-        if a != b:
+        if isinstance(a, decimal.Decimal):
+            if a.compare_total(b) != 0:  # NaN-safe, representation-exact (both sides come from the same text)
+                return f'{k}: {b!r}, expected {a!r}'
+        elif a != b:
             return f'{k}: {b!r}, expected {a!r}'
     return None
